@@ -196,6 +196,7 @@ struct LeafInfo {
   Seen seen;
   int ops_alive = 0, ops_made = 0;
   int order_started = -1;
+  int start_ctx = -1;           // context tag of whoever called start() (first start)
 };
 struct Pending { int leaf; int sched_ctx; std::function<void()> fire; bool alive = true; };
 struct Ctx {
@@ -252,7 +253,7 @@ struct leaf_node final : node {
       if (!L.configured) { g->configure(L); L.configured = true; }
       int nth = L.starts++;
       started_ = true;
-      if (L.order_started < 0) L.order_started = g->start_seq++;
+      if (L.order_started < 0) { L.order_started = g->start_seq++; L.start_ctx = g->cur_ctx; }
       L.seen = observe(r);
       g->trace += "s" + std::to_string(id) + " ";
       char ch = nth == 0 ? L.outcome : 'V';
